@@ -220,6 +220,10 @@ CHECKS["C01"] = dict(
          "connection Only, nothing in flight, mirror in sync) and so is every later history of operations "
          "(every_typed_history_keeps_the_connected_client_in_sync: any history of typed operations, BLOB publications included, nothing assumed "
          "about the order of messages). "
+         "Driver operations AND client writes in any order (System/Mixed.v): the connection invariant (one client with the library's policies, one "
+         "driver, nothing in flight, mirror in sync) is kept by every driver-side operation and by every write the client submits "
+         "(a_driver_operation_keeps_the_connection, a_client_write_keeps_the_connection), hence from the moment the client has connected through "
+         "ANY history of both (connect_then_any_history_stays_in_sync; MixedExamples.v instantiates it). "
          "Several drivers at once: a client's view of one device depends on the messages naming that device alone, in their order "
          "(a_device_view_is_its_own_stream), so under ANY interleaving of the streams of several drivers the client ends in sync with every one "
          "(several_drivers_at_once, System/Interleave.v). "
